@@ -1,6 +1,7 @@
 SPECIFICATION Spec
 CONSTANTS
   Fused = TRUE
+  SoftReest = FALSE
   MaxAdds = 1
   MaxHeight = 3
   MaxDisc = 2
